@@ -40,8 +40,18 @@ Record txn := mkTxn {
   t_method : tok;
   t_headers : list (tok * tok);    (* Go map: keys unique *)
   t_query : list (tok * tok);      (* in order of appearance *)
-  t_status : Z
+  t_status : Z                     (* status of the response object; NEGATIVE = there is no response object *)
 }.
+
+(* A stream can be handled as a response although no response object exists:
+   after an early response Stream.executeReq re-types the REQUEST stream
+   (apiStream.SetType(StreamTypeResponse)) and looks the flows up again; URL,
+   method, headers then still come from the request, GetResponse() is nil.
+   Encoding: t_resp = true and a negative t_status ([no_response]); HTTP status
+   codes are never negative.  [resp_status] is the status as the code can read it. *)
+Definition no_response : Z := -1.
+Definition resp_status (x : txn) : option Z :=
+  if t_status x <? 0 then None else Some (t_status x).
 
 Definition pat (f : flow) : list part := split_url (f_url f).
 
@@ -106,11 +116,16 @@ Definition headers_ok (f : flow) (x : txn) : bool :=
     existsb (fun kv' => tok_eqb (fst kv') (fst kv) && header_matches x (fst kv') (snd kv'))
             (f_headers f)) (f_headers f).
 
+(* isStatusCodeQualified: requests pass; no codes listed passes; otherwise a
+   response object must exist and carry one of the codes *)
 Definition status_ok (f : flow) (x : txn) : bool :=
   negb (t_resp x) ||
   match f_status f with
   | [] => true
-  | l => existsb (fun s => s =? t_status x) l
+  | l => match resp_status x with
+         | Some st => existsb (fun s => s =? st) l
+         | None => false
+         end
   end.
 
 Definition default_methods : list tok :=
@@ -170,19 +185,38 @@ Fixpoint blist_eqb (a b : list bool) : bool :=
   | _, _ => false
   end.
 
-Definition case := (list flow * list bool * list (txn * list Z))%type.
+(* an observation: the transaction, the sorted ids of the flows selected and,
+   for cases executed through the whole engine (Stream.ExecuteFlow), whether
+   ANYTHING happened: an action returned, a processor run, an invocation counted *)
+Definition obs := (txn * list Z * option bool)%type.
+Definition case := (list flow * list bool * list obs)%type.
 
 (* abbreviations the harness uses to keep the case files small *)
 Definition uf (id : Z) (u : String.string) : flow := mkFlow id 0 (bs u) [] [] [] [].
 Definition rq (u : String.string) : txn := mkTxn false (bs u) [71; 69; 84] [] [] 0.      (* bare GET request *)
 Definition rs (u : String.string) : txn := mkTxn true (bs u) [71; 69; 84] [] [] 200.    (* its 200 response *)
-Definition ob (x : txn) (sel : list Z) : txn * list Z := (x, sel).
+Definition rn (u : String.string) : txn := mkTxn true (bs u) [71; 69; 84] [] [] no_response. (* the request, handled as a response without a response object *)
+Definition ob (x : txn) (sel : list Z) : obs := (x, sel, None).
+Definition obe (x : txn) (sel : list Z) (acted : bool) : obs := (x, sel, Some acted).
+
+(* a recording stand-in for the processor machinery: the log of who was handed over *)
+Definition rec_run (fl : list flow) (_ : txn) (log : list Z) : list Z := log ++ map f_id fl.
+
+(* what the model says for one transaction, THROUGH [exec_flow]: the sorted
+   selection and whether anything happened *)
+Definition model_obs (t : ftree) (x : txn) : list Z * bool :=
+  let '(log, ids) := exec_flow rec_run t x [] in
+  (sort ids, match log with [] => false | _ => true end).
+
+Definition obs_agree (t : ftree) (o : obs) : bool :=
+  let '(x, sel, act) := o in
+  let '(msel, macted) := model_obs t x in
+  zlist_eqb msel sel && match act with Some a => eqb a macted | None => true end.
 
 (* None = the implementation's observables equal the model's; otherwise the
    model's load flags and, per transaction, its sorted selection *)
 Definition run_case (k : case) : option (list bool * list (list Z)) :=
   let '(fs, errs, obs) := k in
   let '(t, es) := build fs in
-  let sel := map (fun o => sort (map f_id (get_flow t (fst o)))) obs in
-  if blist_eqb es errs && forallb (fun so => zlist_eqb (fst so) (snd (snd so))) (combine sel obs)
-  then None else Some (es, sel).
+  if blist_eqb es errs && forallb (obs_agree t) obs
+  then None else Some (es, map (fun o => fst (model_obs t (fst (fst o)))) obs).
